@@ -558,6 +558,7 @@ func rulesC18(c *Ctx) {
 	R.Rule("R3", "wallet fee function: one ceil over the summed per-proof ppk of each proof's own keyset", 2)
 	R.Rule("R4", "every keyset entry the wallet keeps in memory carries that keyset's fee (from the mint's answer, from storage or from the entry it replaces)", 4)
 	c.c18KeysetEntriesCarryFee()
+	c.c18SendSplit()
 
 	if f := c.fn("R1", "wallet.(*Wallet).getProofsForAmount"); f != nil {
 		fk := c.P.FuncKey(f)
@@ -1040,4 +1041,55 @@ func (c *Ctx) c17ReconcileComplete() {
 		[]*Cond{alreadyPaid, answerNot(paid)}, walletDB("DeletePendingProofsByQuoteId"))
 	c.ruleMustHit("R8", "UNPAID answer => pending proofs given back", "unless the quote is already recorded PAID, an UNPAID answer returns the melt's pending proofs to the spendable bucket", f,
 		[]*Cond{alreadyPaid, answerNot(unpaid), noPending}, walletDB("SaveProofs"))
+}
+
+// c18SendSplit: R2 (clause). The send outputs of the swap branch are split(amount) followed by split(fee
+// budget), the budget being 0 or the fee of len(split(amount)) + 1 inputs on the synchronised active keyset:
+// the recipient gets proofs worth exactly the amount plus a separate set worth the budget. Splitting the sum
+// amount + budget instead changes how many proofs are sent while the budget still assumes the count above.
+func (c *Ctx) c18SendSplit() {
+	R := c.R
+	f := c.fn("R2", "wallet.(*Wallet).swapToSend")
+	if f == nil {
+		return
+	}
+	fk := c.P.FuncKey(f)
+	o := c.P.OriginsOf(f)
+	amount := ""
+	for _, p := range f.Params {
+		if p.Name() == "amount" {
+			amount = "P:amount"
+		}
+	}
+	if amount == "" && len(f.Params) > 1 {
+		amount = "P:" + f.Params[1].Name()
+	}
+	n := 0
+	for _, ci := range Calls(f) {
+		d := c.P.Describe(ci)
+		if d.Name != fnCreateBM && d.Name != "wallet.blindedMessagesFromSpendingCondition" {
+			continue
+		}
+		e := o.Of(d.Args[0])
+		if !strings.Contains(e.String(), "cashu.AmountSplit("+amount+")") || isCall(e, "wallet.(*Wallet).splitWalletTarget") {
+			continue // the change outputs
+		}
+		n++
+		ok := e.K == "append" && len(e.Args) == 2 && e.Args[0].String() == "cashu.AmountSplit("+amount+")" && isCall(e.Args[1], "cashu.AmountSplit") && len(e.Args[1].Args) == 1
+		if ok {
+			for _, a := range e.Args[1].Args[0].Alts() {
+				if isConst(a, "0") {
+					continue
+				}
+				if !(isCall(a, "wallet.feesForCount") && strings.HasPrefix(arg(a, 0).String(), "(len(cashu.AmountSplit("+amount+")) + #1)")) {
+					ok = false
+				}
+			}
+		}
+		R.Check("R2", fk, "send outputs = split(amount) ++ split(fee budget)", c.P.InstrPos(ci), ok,
+			"the amount and the recipient's fee budget are split separately; the budget is the fee of len(split(amount)) + 1 inputs", short(e.String(), 220))
+	}
+	if n == 0 {
+		R.Check("R2", fk, "send outputs = split(amount) ++ split(fee budget)", c.P.Pos(f.Pos()), false, "the send outputs are derived from the split of the amount", "no output derivation over split(amount) found")
+	}
 }
